@@ -10,7 +10,7 @@ from __future__ import annotations
 import re
 import sys
 from dataclasses import dataclass, field
-from typing import Dict, FrozenSet, Iterable, List, Optional, Sequence, Set, Tuple
+from typing import Any, Dict, FrozenSet, Iterable, List, Optional, Sequence, Set, Tuple
 
 from .report import AnalysisError
 
@@ -109,7 +109,7 @@ def _thaw(x):
 
 
 class Alphabet:
-    def __init__(self, universe: str, flags: int, atoms: List[Tuple]):
+    def __init__(self, universe: str, flags: int, atoms: List[Tuple], alt_atoms: Sequence[Tuple[Tuple, int]] = ()):
         self.flags = flags
         self.atoms = atoms
         sigs: Dict[int, List[int]] = {}
@@ -118,6 +118,15 @@ class Alphabet:
         index = {ch: i for i, ch in enumerate(universe)}
         for bit, atom in enumerate(atoms):
             m = _atom_matcher(atom, flags)
+            for ch in m.findall(universe):
+                if len(ch) == 1:
+                    vec[index[ch]] |= (1 << bit)
+        # atoms of patterns that are to be read under flags of their own (a specification compared with the rules): classified separately
+        self.alt_index: Dict[Tuple[Tuple, int], int] = {}
+        for k, (atom, afv) in enumerate(alt_atoms):
+            bit = len(atoms) + k
+            self.alt_index[(atom, afv)] = bit
+            m = _atom_matcher(atom, afv)
             for ch in m.findall(universe):
                 if len(ch) == 1:
                     vec[index[ch]] |= (1 << bit)
@@ -152,8 +161,10 @@ class Alphabet:
             return " "
         return ms[0]
 
-    def classes_matching(self, atom) -> FrozenSet[int]:
-        bit = self.atom_index.get(atom)
+    def classes_matching(self, atom, fv: Optional[int] = None) -> FrozenSet[int]:
+        bit = self.alt_index.get((atom, fv)) if fv is not None and fv != self.flags else None
+        if bit is None:
+            bit = self.atom_index.get(atom)
         if bit is None:
             raise AnalysisError(f"atom {atom} not in alphabet (internal)")
         return frozenset(c for c in range(self.n) if self.sig[c] >> bit & 1)
@@ -170,11 +181,21 @@ class Alphabet:
 
     @classmethod
     def for_patterns(cls, patterns: Sequence[str], flags: Sequence[str] | int, full: bool = False,
-                     extra_chars: str = "") -> "Alphabet":
+                     extra_chars: str = "", alt: Sequence[Tuple[str, Any]] = ()) -> "Alphabet":
         fv = flags if isinstance(flags, int) else flags_value(flags)
         atoms: List[Tuple] = []
         for p in patterns:
             _atoms(parse(p, fv), atoms)
+        alt_atoms: List[Tuple[Tuple, int]] = []
+        for ap, afl in alt:
+            afv = afl if isinstance(afl, int) else flags_value(afl)
+            tmp: List[Tuple] = []
+            _atoms(parse(ap, afv), tmp)
+            atoms.extend(tmp)  # also under the alphabet's own flags (what every other caller asks for)
+            if afv != fv:
+                for a in tmp:
+                    if (a, afv) not in alt_atoms:
+                        alt_atoms.append((a, afv))
         uniq: List[Tuple] = []
         seen = set()
         for a in atoms:
@@ -192,7 +213,7 @@ class Alphabet:
                             chars.add(v)
             chars.add("\U0001d538")  # a non-BMP letter
             universe = "".join(sorted(chars))
-        return cls(universe, fv, uniq)
+        return cls(universe, fv, uniq, alt_atoms)
 
 
 def _mentioned(atom) -> Iterable[str]:
@@ -243,8 +264,9 @@ class Lookahead:
 
 
 class Builder:
-    def __init__(self, alpha: Alphabet):
+    def __init__(self, alpha: Alphabet, fv: Optional[int] = None):
         self.alpha = alpha
+        self.fv = fv  # the flags the pattern being built is read under, when they differ from the alphabet's
         self.nfa = NFA(alpha.n)
         self.lazy_seen = False
         self.case_changes = False
@@ -263,15 +285,15 @@ class Builder:
         al = self.alpha
         if op in (sre_c.LITERAL, sre_c.NOT_LITERAL, sre_c.ANY):
             a, b = n.new(), n.new()
-            n.add(a, al.classes_matching((op, av if op is not sre_c.ANY else None)), b)
+            n.add(a, al.classes_matching((op, av if op is not sre_c.ANY else None), self.fv), b)
             return a, b
         if op is sre_c.IN:
             a, b = n.new(), n.new()
-            n.add(a, al.classes_matching((op, tuple(_freeze(x) for x in av))), b)
+            n.add(a, al.classes_matching((op, tuple(_freeze(x) for x in av)), self.fv), b)
             return a, b
         if op is sre_c.CATEGORY:
             a, b = n.new(), n.new()
-            n.add(a, al.classes_matching((sre_c.IN, ((sre_c.CATEGORY, av),))), b)
+            n.add(a, al.classes_matching((sre_c.IN, ((sre_c.CATEGORY, av),)), self.fv), b)
             return a, b
         if op is sre_c.BRANCH:
             a, b = n.new(), n.new()
@@ -452,11 +474,11 @@ def _unwrap(items: list) -> list:
     return items
 
 
-def _compile_alternative(items: list, alpha: Alphabet) -> Tuple[DFA, Lookahead, bool]:
+def _compile_alternative(items: list, alpha: Alphabet, fv: Optional[int] = None) -> Tuple[DFA, Lookahead, bool]:
     body, look = _split_trailing(_unwrap(list(items)), alpha)
     for op, av in body:
         _reject_inner_assertions(op, av)
-    b = Builder(alpha)
+    b = Builder(alpha, fv)
     s, e = b.build(body)
     return nfa_to_dfa(b.nfa, s, {e}), look, b.lazy_seen
 
@@ -488,7 +510,7 @@ def compile_rule(pattern: str, flags: Sequence[str] | int, alpha: Alphabet) -> R
     variants: List[Tuple[DFA, Lookahead]] = []
     lazy = False
     for a in alts:
-        d, look, lz = _compile_alternative(a, alpha)
+        d, look, lz = _compile_alternative(a, alpha, fv)
         lazy = lazy or lz
         if outer_look.allowed is not None:
             look.allowed = outer_look.allowed if look.allowed is None else look.allowed & outer_look.allowed
